@@ -112,6 +112,9 @@ pub fn gen_init(rng: &mut Rng) -> Init {
             _ => { committed.insert(key.as_bytes().to_vec(), SVal::Int(*rng.pick(ints))); }
         }
     }
+    // the counters at their ceilings (saturation is a code path of its own)
+    if rng.chance(1, 10) { committed.insert(b"consecutive_failed_update_checks".to_vec(), SVal::Int(4294967295)); }
+    if rng.chance(1, 12) { committed.insert(b"consecutive_failed_install_attempts".to_vec(), SVal::Int(i64::MAX)); }
     if rng.chance(1, 2) { committed.insert(b"install_plan_id".to_vec(), SVal::Str(rng.pick(&["plan-1", "plan-2", "other"]).as_bytes().to_vec())); }
     if rng.chance(1, 2) { committed.insert(b"target_version".to_vec(), if rng.chance(1, 8) { SVal::Bool(true) } else { SVal::Str(rng.pick(&["1.0", "2.0", "UNKNOWN"]).as_bytes().to_vec()) }); }
     // a consistent "rebooted into the new version" record now and then
@@ -252,7 +255,7 @@ fn gen_unit(rng: &mut Rng, h: &Init, apps: &[App], oneshot: bool) -> (UnitEnv, S
     }
     let _ = n_offered;
     for _ in 0..4 { let (b, _) = response_body(rng, apps); u.ev.push_back(http_outcome(rng, cup, b, 6)); }
-    for _ in 0..3 { let (b, _) = response_body(rng, apps); u.pg.push_back(http_outcome(rng, cup, b, 6)); }
+    for _ in 0..3 { let (b, _) = response_body(rng, apps); u.pg.push_back(http_outcome(rng, cup, b, 3)); }   // pings fail more often than checks: the paths that count a failed ping are rare otherwise
     u.plan = if rng.chance(1, 8) { None } else { Some(*rng.pick(&[1u32, 1, 2, 7])) };
     u.canstart = rng.pick(&["ok", "ok", "ok", "deferred", "denied"]).to_string();
     // sixteenths; now and then beyond 100 % (an installer that accumulates in f32 overshoots): every value is forwarded as reported
@@ -431,8 +434,8 @@ pub fn run_history_opt(rng: &mut Rng, init: Init, nunits: usize, oneshot: bool, 
             }
         }
         let mut rplan: VecDeque<(RStep, (i128, i128))> = VecDeque::new();
-        for _ in 0..rng.below(5) {
-            let s = match rng.below(4) { 0 => RStep::Fire30, 1 => RStep::Ctl(1000 * k + 300 + rplan.len(), rng.chance(1, 2)), _ => RStep::FirePing(rng.below(2) as usize) };
+        for _ in 0..rng.below(7) {
+            let s = match rng.below(5) { 0 => RStep::Fire30, 1 => RStep::Ctl(1000 * k + 300 + rplan.len(), rng.chance(1, 2)), _ => RStep::FirePing(rng.below(2) as usize) };
             rplan.push_back((s, dt(rng)));
         }
         envs.push((env, path));
